@@ -241,6 +241,19 @@ template <class C> Verdict check_C03(const Plan& plan, Stats& st) {
     Verdict none;
     std::string mode = plan.extra.gets("mode", "enumerate");
     if (mode == "fault") return check_fault<C>(plan, st, "C03");
+    if (mode == "ip4pair") {
+        st.runs++;
+        RunOut<C> out = run_plan<C>(plan, st, false, true);
+        Violation v;
+        if (pick_violation("C03", out.viol, st, &v)) return make_verdict(plan, v, out.hash);
+        if (plan.ops.size() >= 2 && !out.outs[0].skipped && !out.outs[1].skipped && !out.aborted && (out.outs[0].rc != out.outs[1].rc || out.outs[0].digest != out.outs[1].digest)) {
+            Violation nv; nv.kind = V_RESULT_DIFFERS; nv.op = 1;
+            nv.detail = "uriParseIpFourAddress on the same characters gave {" + out.outs[0].digest + "} for a terminated copy and {" + out.outs[1].digest + "} for the exact range at the end of readable memory";
+            std::vector<Violation> one{nv};
+            if (pick_violation("C03", one, st, &v)) return make_verdict(plan, v, out.hash);
+        }
+        return none;
+    }
     if (mode == "pair") {
         st.runs++;
         RunOut<C> out = run_plan<C>(plan, st, false, true);
@@ -299,6 +312,21 @@ template <class C> Verdict check_C03(const Plan& plan, Stats& st) {
         }
         st.fault("trailing_environment", vars.size());
         if (w < n) st.probe("split_point");
+        // the IPv4 routine of the parser is public too: the same characters as an exact range without terminator vs a terminated copy
+        {
+            std::string sub = base.text.substr(0, (size_t)w);
+            bool ipish = !sub.empty() && sub.find_first_not_of("0123456789.") == std::string::npos;
+            if (ipish || r.chance(40)) {
+                Plan q = plan; q.ops.clear(); q.extra = J::obj(); q.extra.set("mode", "ip4pair");
+                Op a; a.kind = OP_ESCAPE; a.opt = 3; a.text = sub; a.placement = 0;
+                Op b = a; b.placement = 3;
+                q.ops.push_back(a); q.ops.push_back(b);
+                Verdict d = check_C03<C>(q, st);
+                st.runs--;
+                if (d.violated) return d;
+                st.probe("ipv4_routine_ranged_vs_terminated");
+            }
+        }
     }
     // allocation failure at every request of the full-text parse (residue part)
     {
